@@ -178,9 +178,16 @@ func (s *Session) process() {
 		// 关闭连接
 		s.Close()
 
-		// 重置到初始状态
-		s.conn = nil
-		s.dataChannel = nil
+		// 重置到初始状态. Close may still be running on the delivery goroutine
+		// (it closes the session when the stream ends, and closing the control
+		// connection waits for this goroutine's pending read): the data channel is
+		// closed here as well before it is forgotten, and conn stays set for it
+		s.lockW.Lock()
+		if s.dataChannel != nil {
+			s.dataChannel.Close()
+			s.dataChannel = nil
+		}
+		s.lockW.Unlock()
 		s.status = statusInit
 		stats.WspConns.Release()
 		s.logger.Info("close wsp channel")
